@@ -316,9 +316,23 @@ Proof.
   specialize (IH s1 H). destruct (draws s1 r) as [s2 l]. exact IH.
 Qed.
 
+Lemma split_res_range s arg : in_range s -> in_range (fst (split_res s (rnd_fn s arg))).
+Proof.
+  intros Hs. pose proof (rnd_fn_seed_range s arg Hs) as H.
+  destruct (rnd_fn s arg) as [[s' b]| | |]; cbn [split_res fst]; assumption.
+Qed.
+
+Lemma neval_range e : forall s, in_range s -> in_range (fst (neval s e)).
+Proof.
+  induction e as [|v|e IH|e IH|e IH|e IH]; intros s Hs; cbn [neval];
+    try (apply split_res_range; exact Hs);
+    specialize (IH s Hs); destruct (neval s e) as [s1 r]; cbn [fst] in *; try exact IH.
+  destruct r as [b| | |]; try exact IH. apply split_res_range. exact IH.
+Qed.
+
 Lemma step_range s o : in_range s -> in_range (fst (step s o)).
 Proof.
-  intros Hs. destruct o as [arg|v| |f args]; cbn [step].
+  intros Hs. destruct o as [arg|v| |f args|e]; cbn [step].
   - destruct arg as [v|]; cbn [rnd_fn].
     + destruct (to_single v) as [f| | |]; cbn [bind fst]; try exact Hs.
       destruct (sng_is_zero f); cbn [fst]; [exact Hs | apply cycle_range].
@@ -326,6 +340,7 @@ Proof.
   - destruct v; cbn [randomize_fn fst]; try exact Hs; apply reseed_tail_range.
   - cbn [fst]. apply clear_range.
   - pose proof (draws_range args s Hs) as H. destruct (draws s args) as [s' r]. exact H.
+  - apply neval_range. exact Hs.
 Qed.
 
 Theorem exec_range ops : forall s, in_range s -> in_range (exec s ops).
@@ -636,3 +651,26 @@ Proof.
       rewrite Z2Pos.id by (apply Z.pow_pos_nonneg; lia).
       change (Z.pos 16777216) with (2 ^ 24). exact Hm.
 Qed.
+
+(* ------------------------------------------------------------------ *)
+(* nested draws: the argument is evaluated (and its draws made) before the outer call reads the seed *)
+
+Lemma nested_positive s : in_range s -> rnd_cycle s <> 0 ->
+  step s (ONest (NArg NPlain)) =
+  (rnd_cycle (rnd_cycle s), Ok (rnd_bytes (rnd_cycle (rnd_cycle s)))).
+Proof.
+  intros Hs Hnz. cbn [step neval rnd_fn split_res].
+  pose proof (cycle_range s) as Hr. unfold in_range in Hr.
+  pose proof (rnd_bytes_scale _ (cycle_range s)) as (_ & _ & _ & H1).
+  destruct (H1 ltac:(lia)) as (_ & Hz & Hneg & _).
+  cbn [to_single bind]. rewrite Hz, Hneg. reflexivity.
+Qed.
+
+Lemma nested_zero s :
+  step s (ONest (NArg (NZero NPlain))) = (rnd_cycle s, Ok (rnd_bytes (rnd_cycle s))).
+Proof. reflexivity. Qed.
+
+(* in general: RND(e) is RND(value of e) performed from the seed that evaluating e leaves behind *)
+Lemma nested_order s e s1 b :
+  neval s e = (s1, Ok b) -> neval s (NArg e) = split_res s1 (rnd_fn s1 (Some (VSng b))).
+Proof. intros H. cbn [neval]. rewrite H. reflexivity. Qed.
